@@ -108,7 +108,7 @@ def dispatch (op : String) (args : List String) : String :=
   | "gpoprows" | "gpoprows3" => AlgoRun.handlePopRows (op == "gpoprows3") args
   | "giso" | "glin" | "gsmooth" => AlgoRun.handleResample op args
   | "gsamplers" | "gscene" | "graster" => AlgoRun.handleRaster op args
-  | "gimgsave" | "gimgload" | "gimgnd" | "gimgio" | "gimgget" => AlgoRun.handleImgIo op args
+  | "gimgsave" | "gimgload" | "gimgnd" | "gimgio" | "gimgget" | "gimgread" => AlgoRun.handleImgIo op args
   | "gparse" => AlgoRun.handleParse args
   | "gtosubtree" | "gcutenter" | "gcutdepth" | "gcutleave" | "gcutleaveset" | "gcuttype" | "gcutorder" => AlgoRun.handleCut op args
   | "gsingleroot" => AlgoRun.handleSingleRoot args
